@@ -4,6 +4,8 @@ import (
 	"encoding/json"
 	"flag"
 	"fmt"
+	"math/rand"
+	"strings"
 
 	"github.com/onflow/atree"
 )
@@ -63,7 +65,15 @@ func cmdMapRun(args []string) {
 	in := fs.String("in", "", "histories ndjson (first line cfg)")
 	out := fs.String("out", "", "trace ndjson")
 	mode := fs.String("mode", "edge", "edge|full")
+	probe := fs.String("probe", "", "comma list of probes run at the end of every history: iter,partial,batch,copy,mutiter")
+	pseed := fs.Int64("seed", 1, "seed for probe choices")
 	fs.Parse(args)
+	which := map[string]bool{}
+	for _, p := range strings.Split(*probe, ",") {
+		if p != "" {
+			which[p] = true
+		}
+	}
 	var cfg runCfg
 	first := true
 	wr := newNDWriter(*out)
@@ -106,8 +116,15 @@ func cmdMapRun(args []string) {
 		lr.I = cfg.Limit
 		wr.Write(lr)
 		for _, op := range ops[from:] {
-			ev, res := w.Exec(op)
+			op := op
+			ev, res := w.ExecAny(&op)
 			wr.Write(w.rec(t, ev, op, res))
+			if res.Class == "panic" {
+				break
+			}
+		}
+		if len(which) > 0 {
+			w.RunProbes(t, "m", which, rand.New(rand.NewSource(*pseed*1000003+int64(t))), func(r Rec) { wr.Write(r) })
 		}
 	})
 	wr.Close()
